@@ -60,7 +60,7 @@ def run(ctx):
     ctx.trust("option ranges of phyclone.cli.run are the top-level precondition (N >= 1, thresholds and probabilities in [0,1], thin/burnin/num_iters >= 1, alpha > 0, grid >= 11); "
               "--print-freq is not among the options the property quantifies over (i %% print_freq needs print_freq != 0)",
               "the safety obligations of one arbitrary iteration of _run_burnin and _run_main_sampler are included (their functional posts are C15's); Tree mutators are C06/C07's",
-              "finiteness of log_p_one: sum of finitely many finite terms given finite data grids (C05) and alpha >= 1e-10; outlier probability exactly one is stored as 'off' (DESIGN 7.11)")
+              "finiteness of log_p_one: sum of finitely many finite terms given finite data grids (C05) and alpha > 0 (floored at the smallest normal float); outlier probability exactly one is stored as 'off' (DESIGN 7.11)")
     ctx.assume("A-REAL: numpy never raises on floating-point edge cases here (log of 0 gives -inf with a warning); such values are excluded by the log-domain obligations")
     ctx.extra["explanation"] = ("Deductive: every index, key, divisor, log argument, assert and empty-sequence draw in the functions under contract of the sampler layer is proved safe "
                                 "under the contracts (callers establish callee preconditions, e.g. iteration < T before the conditional sampler resamples; the all-outlier tree in the "
